@@ -9,7 +9,7 @@
 (*  heap - digests of every heap cell that existed before a statement,     *)
 (*         taken before and after it: the heap is append-only, no cell     *)
 (*         changes content; at most one lambda cell gets its name written, *)
-(*         and only by an assignment;                                      *)
+(*         only by an assignment, and only if it had no name before;       *)
 (*  perm - a batch of mutually independent statements (every spelling of   *)
 (*         every unit converted, built-in calls; definitions of heap       *)
 (*         values later passed to every built-in) evaluated in two orders, *)
@@ -28,6 +28,7 @@ HeapOk(e) == /\ e.cells_after >= e.cells_before
              /\ e.changed = <<>>
              /\ Len(e.renamed) <= 1
              /\ (e.renamed # <<>> => e.is_assignment)
+             /\ e.renamed_named = <<>>          \* only a function that had no name yet is named: an alias never renames
 \* statements that do not depend on each other give the same values in every order
 PermOk(e) == e.differing = <<>>
 EventOk(e) == CASE e.ev = "runs" -> RunsOk(e) [] e.ev = "heap" -> HeapOk(e) [] e.ev = "perm" -> PermOk(e) [] OTHER -> FALSE
